@@ -82,6 +82,7 @@ def run(ctx):
         cases.append(c)
     mism = tc.matrix_correspondence(ctx, cases, "C06")
     viol = []
+    nraised = 0
     for n in range(n_real):
         i, o = pairs[(5 * n) % len(pairs)]
         c = tc.gen_case(rng, ndim=1 + n % 3, inner=i, outer=o, steady=False)
@@ -114,6 +115,7 @@ def run(ctx):
             bad = check_case(c, substep=c.substep)
         except (RuntimeError, ValueError) as e:
             ctx.notes.append("real solve raised (C17 / table range, not C06): %r" % (e,))
+            nraised += 1
             continue
         ctx.case(("real", n, c.ndim, c.inner, c.outer, mode), nontrivial=(c.inner != "ins" or c.outer != "ins" or c.T0field is not None),
                  tag="real/%dD/%s-%s/mode%d" % (c.ndim, c.inner, c.outer, mode),
@@ -132,6 +134,10 @@ def run(ctx):
         ctx.case(("f17",), tag="real/F17-probe", sample={"suite": "F17 probe r=1 t=0.8 nr=2 q=+1"})
     except (RuntimeError, ValueError) as e:
         ctx.notes.append("F17 probe raised: %r" % (e,))
+    ctx.obligation("the real solver completed on at least 80% of the generated cases (a check that skips everything proves nothing)",
+                   nraised * 5 <= n_real, "%d of %d raised" % (nraised, n_real))
+    if nraised * 5 > n_real:
+        mism = list(mism) + [(cases[0], ["%d of %d real solves raised" % (nraised, n_real)])]
     ctx.obligation("property predicate (range bounds, uniform stays uniform, no cooling under heat input) on real solves",
                    not [v for v in viol if not v[1].endswith("-thick")],
                    "%d failures; first: %s" % (len(viol), viol[0][1:] if viol else ""))
